@@ -29,7 +29,7 @@ TRUSTED_BASE = ["numpy/opt_einsum contraction and DiscreteFactor array primitive
                 "floats are fed as exact dyadic rationals; float rounding is not modelled (1e-9 relative tolerance)"]
 ASSUMPTIONS = ["node and state names are interned to nat by the harness",
                "P(evidence) = 0 is an excluded input (pgmpy returns nan); such cases are generated but not counted",
-               "virtual evidence needs str node names ('__' + name) and is given with the model's own state order"]
+               "virtual evidence is given with the model's own state order"]
 
 EOS = ["greedy", "MinFill", "MinNeighbors", "MinWeight", "WeightedMinFill", "perm", None]
 HEUR = {"WeightedMinFill": 0, "MinNeighbors": 1, "MinWeight": 2, "MinFill": 3}
@@ -199,8 +199,8 @@ def cases(tier, seed):
         coarse = shape == "twins" or rng.random() < 0.15
         nodes = list(range(n))
         rng.shuffle(nodes)
-        nstyle = rng.choice(["str", "str", "int"])
-        q, ev, vev = pick_query(rng, n, cards, nstyle == "str")
+        nstyle = rng.choice(["str", "str", "int", "tuple", "mixed"])
+        q, ev, vev = pick_query(rng, n, cards, True)
         order_seed = rng.randint(0, 10**9)
         base = {"kind": "rand", "shape": shape, "n": n, "nodes": nodes, "edges": [list(e) for e in edges], "cards": cards,
                 "cpds": gen_cpds(rng, n, edges, cards, coarse), "nstyle": nstyle,
@@ -393,7 +393,7 @@ def one_query(case, drv, m, nn, sn, Q, E, vev, eo, joint, rng, tags, engine=None
     allsn = list(sn) + [[0, 1]] * n
     for v, _ in vev:
         allcards[n + v] = 2
-        idxn[repr("__" + str(nn[v]))] = n + v
+        idxn[repr("__" + str(nn[v]))] = n + v  # pgmpy names the virtual child "__" + str(var)
     wire = model_bn(case, m, nn, vcards)
     vev_model = [[v, n + v, [Fraction(a, b) for a, b in vals]] for v, vals in vev]
     vev_spec = [[v, [Fraction(a, b) for a, b in vals]] for v, vals in vev]
@@ -513,14 +513,20 @@ def run_case(case, drv):
         b, nt = run_queries(case, drv, m, nn, sn, Q, E, vev, cfgs, rng, tags)
         if b:
             return dict(b, key=common.canon_key(case), tags=tags)
-        if nt and not vev:
-            # engine reuse: the same query twice on one engine, with another query in between (purity is C16;
-            # only recorded)
+        if nt:
+            # engine reuse: the same query twice on one engine, with another query (with the virtual evidence,
+            # which temporarily augments the engine's model) in between (purity is C16; only recorded)
             from pgmpy.inference import VariableElimination
+            from pgmpy.factors.discrete import TabularCPD
             ve = VariableElimination(m)
             ev = {nn[v]: sn[v][i] for v, i in E} or None
+            virt = [TabularCPD(nn[v], cards[v], [[float(Fraction(a, b))] for a, b in vals],
+                               state_names={nn[v]: list(sn[v])}) for v, vals in vev] or None
             r1 = ve.query([nn[q] for q in Q], evidence=ev, elimination_order="MinFill", show_progress=False)
-            ve.query([nn[Q[0]]], elimination_order="greedy", show_progress=False)
+            try:
+                ve.query([nn[Q[0]]], virtual_evidence=virt, elimination_order="greedy", show_progress=False)
+            except Exception:
+                tags.append("ANOMALY engine-reuse: intermediate query raised")
             r2 = ve.query([nn[q] for q in Q], evidence=ev, elimination_order="MinFill", show_progress=False)
             idxn = {repr(x): i for i, x in enumerate(nn)}
             if cmp_tables(table_of_impl(r1, nn, idxn), {k: Fraction(v) for k, v in table_of_impl(r2, nn, idxn).items()}):
